@@ -174,5 +174,6 @@ contract(
                               "implies(_i > 0, len(self.values) > 0)", "heap_unchanged()"])},
     canaries=["result < alloc_at_entry()", "first_binding(self.values, key) is not None"],
     domain=lambda tier: _getitem_domain(tier),
-    props=["C05", "C08", "C14"],
+    # every edit property: set / rm walk explicit nested sets with this lookup (_resolve_npath_parent)
+    props=["C04", "C05", "C08", "C09", "C19", "C14"],
 )
